@@ -27,6 +27,7 @@ import sys
 
 import common
 from common import CoqRaw
+import c17_cover
 
 sys.path.insert(0, os.path.join(common.VERIF, 'translator'))
 
@@ -62,6 +63,9 @@ def classify_error(method, out):
         return 'C17:HelicalLattice.from_hdf5:_N_cells-used-before-set'
     if hdf5 and err == 'TypeError' and "'NoneType' object is not subscriptable" in msg and where == 'lattice.py:save_hdf5':
         return 'C17:IrregularLattice.save_hdf5:add-is-None'
+    # a leg without any block (block_number == 0, e.g. after project() with an all-False mask): blockcharges has shape (0, 2 + qnumber)
+    if method == 'hdf5:compact' and err == 'IndexError' and 'index -1 is out of bounds for axis 0 with size 0' in msg and where == 'charges.py:from_hdf5':
+        return 'C17:LegCharge.from_hdf5:compact-format-empty-leg'
     return None
 
 
@@ -76,6 +80,12 @@ def classify_problem(method, p):
         return 'C17:MomentumMPS.from_hdf5:dtype-not-set'
     # Ladder.__init__ stores a reciprocal vector embedded in the 2D plotting space; Lattice.from_hdf5 (basis setter) resets the
     # cache and the lazy recomputation for dim == 1 returns shape (1, 1)
+    # Lattice.save_hdf5 does not write mps_unit_cell_width, from_hdf5 sets it to Ls[0]: wrong for lat.with_grouped_sites(...) / model.group_sites(n)
+    if method.startswith('hdf5') and re.search(r"\.?mps_unit_cell_width: value \d+ became \d+$", p):
+        return 'C17:Lattice.from_hdf5:mps_unit_cell_width-not-saved'
+    # Config.copy(share_unused=True): the set `unused` is shared by the copy and the original; it is stored as an HDF5 attribute of each
+    if method.startswith('hdf5') and re.search(r"\.unused: object shared by reference before saving is a different object after loading \(set\)$", p):
+        return 'C17:Config.from_hdf5:shared-unused-set-not-shared'
     if method.startswith('hdf5') and re.search(r"lattice observation reciprocal_basis of Ladder: \('array', \(1, 2\), .* became \('array', \(1, 1\), ", p):
         return 'C17:Ladder.from_hdf5:reciprocal_basis-2d-embedding-lost'
     return None
@@ -427,6 +437,13 @@ def main(ctx):
     discovered = disc['classes']
     gens = gl['generators']
 
+    # ---- coverage streams: leaf types by reflection, documented options, pickle-protocol fallback, line coverage table
+    try:
+        c17_cover.run(ctx, rng, replay, tm, gens, FIXED_TUPLE_CYCLES)
+    except Exception as e:
+        import traceback
+        ctx.fail('correspondence', 'coverage streams crashed: %r %s' % (e, traceback.format_exc()[-600:]), None)
+
     # ---- objects
     specs = []
     reps = ctx.pick(1, 3) * intens
@@ -443,11 +460,22 @@ def main(ctx):
                               'shape': rep == 0 and (ctx.thorough() or not (name.startswith('lattice_segment:') and v >= 2)),
                               'max_nodes': ctx.pick(400, 600),
                               'shape_methods': ctx.pick(['hdf5:blocks', 'pickle'], ['hdf5:blocks', 'hdf5:compact', 'pickle', 'deepcopy'])})
+    # every generator once more WRAPPED: the object referenced from 7 places (dict / general dict / list / tuple / instance attributes)
+    # inside containers that lie on reference cycles (quick tier: one variant per generator, thorough: every variant)
+    for name in sorted(gens):
+        vs = list(range(gens[name])) if ctx.thorough() and not name.startswith('model:') else [rng.randrange(gens[name])]
+        if not ctx.thorough() and intens == 1 and name.startswith('model:') and rng.random() < 0.5:
+            continue
+        for v in vs:
+            fmt = ['hdf5:blocks', 'hdf5:compact'][(v + len(name)) % 2]
+            specs.append({'gen': name, 'args': {'variant': v} if gens[name] > 1 else {}, 'seed': ctx.seed * 1000 + 500 + v, 'wrap': True,
+                          'methods': ctx.pick([fmt, 'pickle'], ['hdf5:blocks', 'hdf5:compact', 'pickle', 'deepcopy']),
+                          'shape': ctx.thorough() and not name.startswith('model:'), 'max_nodes': 600, 'shape_methods': [fmt, 'pickle']})
     rng.shuffle(specs)
     if replay is not None:
         specs = []
         if replay.get('stream') == 'objects':
-            specs = [{'gen': replay['gen'], 'args': replay.get('args', {}), 'seed': replay.get('seed', 0),
+            specs = [{'gen': replay['gen'], 'args': replay.get('args', {}), 'seed': replay.get('seed', 0), 'wrap': replay.get('wrap', False),
                       'methods': [replay['method']], 'shape': True, 'max_nodes': 1500}]
     nchunk = common.NPROC
     chunks = [specs[i::nchunk] for i in range(nchunk)]
@@ -462,7 +490,8 @@ def main(ctx):
             ctx.fail('correspondence', 'objects runner failed: ' + err[-800:], None)
             continue
         for spec, x in zip(chunks[ci], r):
-            case0 = {'stream': 'objects', 'gen': spec['gen'], 'args': spec['args'], 'seed': spec['seed']}
+            case0 = {'stream': 'objects', 'gen': spec['gen'], 'args': spec['args'], 'seed': spec['seed'], 'wrap': bool(spec.get('wrap'))}
+            hist['wrapped'] = hist.get('wrapped', 0) + bool(spec.get('wrap'))
             if 'gen_error' in x:
                 ctx.fail('correspondence', 'generator %s failed: %s' % (spec['gen'], x['gen_error'][-500:]), case0)
                 continue
@@ -471,7 +500,7 @@ def main(ctx):
             for method, o in x['methods'].items():
                 case = dict(case0, method=method)
                 hist['roundtrips'] += 1
-                ctx.count('objects', [spec['gen'], spec['args'], spec['seed'], method], nontrivial=o.get('compared', 0) > 1,
+                ctx.count('objects', [spec['gen'], spec['args'], spec['seed'], method, bool(spec.get('wrap'))], nontrivial=o.get('compared', 0) > 1,
                           sample={'gen': spec['gen'], 'args': spec['args'], 'method': method, 'root_class': x.get('root_class'),
                                   'values_compared': o.get('compared'), 'shared_references': o.get('shared'),
                                   'test_sanity_calls': o.get('sanity_n'), 'lattices_observed': o.get('lattices')})
